@@ -71,7 +71,10 @@ class ClosestIndex(ParameterTransformation):
                         self._materials, isotropic=is_isotropic, diagonally_anisotropic=is_diagonally_anisotropic
                     )
                 )
-                if is_isotropic or is_diagonally_anisotropic:
+                if is_isotropic:
+                    # (num_materials, 1) -> (num_materials,), so that it broadcasts against arr[..., None]
+                    allowed_inv_perms = (1 / allowed_perm_array).squeeze(-1)
+                elif is_diagonally_anisotropic:
                     allowed_inv_perms = 1 / allowed_perm_array
                 else:
                     # Fully anisotropic: reshape to 3x3 matrix, invert, and flatten back to 9 elements
